@@ -515,6 +515,8 @@ class Facts:
         import canon
         text, self.renamed = canon.canonicalise(text)      # {actual path: canonical path} (empty on the pinned layout)
         self.j = json.loads(text)
+        import erase
+        self.j, self.erased = erase.erase(self.j)          # {newtype over an integer: the integer} (empty on the pinned tree)
         self.crate = self.j['crate']
         self.bodies = [Body(b, self) for b in self.j['bodies']]
         self.by_id = {b.id: b for b in self.bodies}
